@@ -152,9 +152,18 @@ def r2_median(ctx):
                   "the projection is applied exactly when one is given", bad="the projection is %s" % ("ignored" if proj else "applied without being given"), fn=qn)
         kq = Q.arg(ctx, q, "k")
         want = ("binop", "+", ("param", "k_nearest"), const(1))
-        ctx.check("R2", "%s|k-plus-one|%s" % (qn, tag), True if isinstance(kq, tuple) and canon(kq) in (canon(want), canon(("binop", "+", const(1), ("param", "k_nearest")))) else
-                  (False if kq == ("param", "k_nearest") or kq is None or (isinstance(kq, tuple) and Q.leaves(kq) == {("param", "k_nearest")}) else None),
-                  "k_nearest + 1 neighbours are queried (the point itself is the first)", bad="the query uses k=%s" % (show(kq) if isinstance(kq, tuple) else kq), fn=qn)
+        okk = True if isinstance(kq, tuple) and canon(kq) in (canon(want), canon(("binop", "+", const(1), ("param", "k_nearest")))) else \
+            (False if kq == ("param", "k_nearest") or kq is None or (isinstance(kq, tuple) and Q.leaves(kq) == {("param", "k_nearest")}) else None)
+        whyk = "the query uses k=%s" % (show(kq) if isinstance(kq, tuple) else kq)
+        if okk is None and isinstance(kq, tuple) and kq[0] == "binop" and kq[1] == "+" and kq[3] == const(1) and kq[2][0] == "call" and callee(kq[2]) in ("builtins.min", "numpy.minimum") and len(kq[2][2]) == 2:
+            # k_nearest clamped from above: every k_nearest up to (number of points - 1) is meaningful (all the other points), so a
+            # bound of size - c is harmless for c <= 1 and silently shortens the neighbourhood for c >= 2
+            a, b = kq[2][2]
+            bound = b if a == ("param", "k_nearest") else (a if b == ("param", "k_nearest") else None)
+            if bound is not None and bound[0] == "binop" and bound[1] == "-" and is_const(bound[3]) and isinstance(bound[3][1], int) and bound[2][0] == "attr" and bound[2][2] == "size":
+                okk = True if bound[3][1] <= 1 else False
+                whyk = "k_nearest is clamped to size - %d: asking for all the other points (k_nearest = size - 1) silently uses one neighbour fewer" % bound[3][1]
+        ctx.check("R2", "%s|k-plus-one|%s" % (qn, tag), okk, "k_nearest + 1 neighbours are queried (the point itself is the first)", bad=whyk, fn=qn)
         inner, shp = reshape_target(p.value)
         ctx.check("R2", "%s|output-shape|%s" % (qn, tag), True if shp is not None and canon(shp) == canon(bshape()) else None, "the result has the broadcast shape of the input", fn=qn)
         ok_ax = ok_el = ok_col = None
